@@ -827,3 +827,37 @@ def rule_B8(ctx, prog, label, rule='B8'):
         if not found:
             raise AnalysisBroken('B8: the periodic group %s / %s was not found' % (fname, first))
     return rr
+
+
+# ---------------------------------------------------------------------------------------------- B7p
+def rule_B7p(ctx, prog, label, rule='B7p'):
+    """xor-fold chains (`x ^= x >> c` repeated with halving c, the parity / reduction idiom) start at half the width of x's
+    type and halve down to 1 without a gap; a 64-bit word folded from 16 loses the contribution of bits 32..63."""
+    rr = RuleResult(rule, 'xor-fold chains (x ^= x >> c, c halving) cover the whole width of their operand: c runs w/2, w/4, ..., 1')
+    for f in sorted(prog.all_funcs(), key=lambda f: (f.file, f.line)):
+        for cs in f.body.find('CompoundStmt'):
+            run = []
+            for s in cs.kids + [None]:
+                e = strip(s) if s is not None else None
+                c = None
+                if e is not None and e.kind == 'CompoundAssignOperator' and e.op == '^=':
+                    l = strip(e.kids[0], casts=True)
+                    r = strip(e.kids[1], casts=True)
+                    if l.kind == 'DeclRefExpr' and r.kind == 'BinaryOperator' and r.op == '>>' and strip(r.kids[0], casts=True).kind == 'DeclRefExpr' \
+                       and strip(r.kids[0], casts=True).refid == l.refid and int_value(r.kids[1]) is not None:
+                        c = (l.refid, int_value(r.kids[1]), e, l)
+                if c is not None and (not run or run[-1][0] == c[0]):
+                    run.append(c)
+                    continue
+                if len(run) >= 3 and all(run[i][1] == 2 * run[i + 1][1] for i in range(len(run) - 1)):
+                    rr.instances += 1
+                    t = (run[0][3].type or '').replace('const', '').strip()
+                    width = 64 if t in ('word', 'unsigned long', 'uint64_t', 'unsigned long long', 'long') else 32 if t in ('int', 'unsigned int', 'uint32_t', 'rci_t') else None
+                    ok = width is not None and run[0][1] == width // 2 and run[-1][1] == 1
+                    rr.ob(ok, dict(function=f.name, variable=run[0][3].ref, shifts=[x[1] for x in run]),
+                          Finding(rule, '%s|%s|%s' % (rule, f.name, run[0][3].ref), run[0][2].loc, f.name,
+                                  'xor-fold of the %s-bit `%s` uses the shifts %s: expected %s - bits %s never reach bit 0' % (
+                                      width, run[0][3].ref, [x[1] for x in run], [width >> i for i in range(1, width.bit_length())] if width else '?',
+                                      '%d..%d' % (2 * run[0][1], width - 1) if width and run[0][1] < width // 2 else 'above the last shift'), {}, label))
+                run = [c] if c is not None else []
+    return rr
